@@ -4,11 +4,11 @@
    squash_changes) and are stated for the real hash: they need [H b <> []] for all b, which is
    proved of keccak256 and is false of a degenerate H (counterexample machine-checked in
    D_safety.C07_degenerate_H).  Only the property theorems.
-   Not proved here: "retrying after supplying only the reported node converges, asking for each
-   node at most once" (checked by the harness's retry loop on every case). *)
+   Retry convergence is proved for get and traverse (C07_retry_get / C07_retry_traverse); for
+   set / delete (which report prefix None) it is checked by the harness's retry loop only. *)
 From Coq Require Import List NArith Bool.
 From PyTrie.Base Require Import Bytes Result AMap Nibbles Rlp Keccak.
-From PyTrie.Hexary Require Import Raw D D_safety D_read.
+From PyTrie.Hexary Require Import Raw D D_safety D_read D_retry.
 Import ListNotations.
 
 (* same result as on the complete database, or a Missing* error naming a hash that is absent
@@ -72,3 +72,38 @@ Print Assumptions C07_report_delete.
 Theorem C07_reads_pure : forall BNH key t, snd (get BNH key t) = t.
 Proof. exact D_safety.D_reads_pure_get. Qed.
 Print Assumptions C07_reads_pure.
+
+(* the loop "on MissingTrieNode h: supply full[h]; retry" converges to the complete-store result,
+   asks only for genuinely missing nodes of the key's path, each at most once, at most as many
+   times as there are hashed references on the path (itself <= nibbles + 3) *)
+Theorem C07_retry_get : forall BNH full m r k, sub_store m full ->
+  mh8 (fst (get BNH k (plain full r))) = None ->
+  forall fuel, (length (path_refs BNH full r (bytes_to_nibbles k)) < fuel)%nat ->
+  let '(res, m', asked) := retry_get BNH fuel full m r k [] in
+  res = fst (get BNH k (plain full r)) /\
+  fst (get BNH k (plain m' r)) = fst (get BNH k (plain full r)) /\
+  NoDup asked /\
+  (forall h, In h asked -> aget m h = None /\ aget full h <> None /\ In h (path_refs BNH full r (bytes_to_nibbles k))) /\
+  sub_store m m' /\ sub_store m' full /\
+  (forall x, aget m' x = if existsb (bytes_eqb x) asked then aget full x else aget m x) /\
+  (length asked <= length (path_refs BNH full r (bytes_to_nibbles k)))%nat.
+Proof. exact D_retry.C07_retry_get. Qed.
+Print Assumptions C07_retry_get.
+
+Theorem C07_retry_path_bound : forall BNH m root tk, (length (path_refs BNH m root tk) <= length tk + 3)%nat.
+Proof. exact D_retry.path_refs_len. Qed.
+Print Assumptions C07_retry_path_bound.
+
+Theorem C07_retry_traverse : forall BNH full m r ns, sub_store m full ->
+  mh9 (fst (traverse BNH ns (plain full r))) = None ->
+  forall fuel, (length (path_refs BNH full r ns) < fuel)%nat ->
+  let '(res, m', asked) := retry_traverse BNH fuel full m r ns [] in
+  res = fst (traverse BNH ns (plain full r)) /\
+  fst (traverse BNH ns (plain m' r)) = fst (traverse BNH ns (plain full r)) /\
+  NoDup asked /\
+  (forall h, In h asked -> aget m h = None /\ aget full h <> None /\ In h (path_refs BNH full r ns)) /\
+  sub_store m m' /\ sub_store m' full /\
+  (forall x, aget m' x = if existsb (bytes_eqb x) asked then aget full x else aget m x) /\
+  (length asked <= length (path_refs BNH full r ns))%nat.
+Proof. exact D_retry.C07_retry_traverse. Qed.
+Print Assumptions C07_retry_traverse.
